@@ -269,6 +269,12 @@ def rule_palette_depth_index(ctx: Ctx) -> RuleResult:
     return rr
 
 
+def _sentinel(ctx: Ctx):
+    from ..rules import sentinel
+
+    return sentinel.run_sentinel(ctx.p, "C17.14", ("urwid.widget",), floor=1, only_classes={"AttrMap", "AttrWrap"})
+
+
 def run(ctx: Ctx):
     r6 = c02.rule_cut_attr(ctx)
     r6.clause = "C17.6"
@@ -289,13 +295,14 @@ def run(ctx: Ctx):
     from ..rules import pairlen
 
     r12 = pairlen.run_pairlen(ctx.p, "C17.12", ["urwid.canvas.apply_text_layout", "urwid.util.apply_target_encoding"], floor=8)
-    return [rule_palette_order(ctx), rule_palette_notify(ctx), rule_palette_cache(ctx), rule_palette_total(ctx), rule_attrmap(ctx), r6, r7, r8, r9, r10, r11, r12, rule_palette_depth_index(ctx)]
+    return [rule_palette_order(ctx), rule_palette_notify(ctx), rule_palette_cache(ctx), rule_palette_total(ctx), rule_attrmap(ctx), r6, r7, r8, r9, r10, r11, r12, rule_palette_depth_index(ctx), _sentinel(ctx)]
 
 
 _CM = "urwid/display/common.py"
 _RW = "urwid/display/_raw_display_base.py"
 _HT = "urwid/display/html_fragment.py"
 MUTANTS = [
+    Mut("focus-map-getter-by-truthiness", "urwid/widget/attr_map.py", "AttrMap.get_focus_map", "        if self._focus_map is not None:", "        if self._focus_map:", "SENTINEL|widget.attr_map.AttrMap.get_focus_map"),
     Mut("erase-guard-consults-basic-spec", _RW, "urwid.display._raw_display_base.Screen.draw_screen", "            a = self._pal_attrspec.get(a, a)", "            a = self._palette.get(a, (a,))[0]", "TAB|display._raw_display_base.Screen.draw_screen"),
     Mut("ellipsis-attr-run-in-columns", "urwid/canvas.py", "apply_text_layout", "attrrange(s.offs, s.offs, len(tseg))", "attrrange(s.offs, s.offs, s.sc)", "PAIRLEN|canvas.apply_text_layout"),
     Mut("palette-256-built-for-88", _CM, "BaseScreen.register_palette_entry", "high_256 = AttrSpec(foreground_high, background_high, 256)", "high_256 = AttrSpec(foreground_high, background_high, 88)", "TAB|"),
